@@ -6,6 +6,7 @@ package mc
 import (
 	"fmt"
 	"runtime"
+	"runtime/debug"
 	"sync"
 	"sync/atomic"
 )
@@ -172,10 +173,24 @@ func ParFor(n int, f func(i int)) {
 	}
 	var next int64 = -1
 	var wg sync.WaitGroup
+	var mu sync.Mutex
+	var first any
+	var stack []byte
 	for w := 0; w < workers; w++ {
 		wg.Add(1)
 		go func() {
 			defer wg.Done()
+			// a panic in a worker is handed to the caller (which may have verdicts to print first)
+			defer func() {
+				if x := recover(); x != nil {
+					mu.Lock()
+					if first == nil {
+						first, stack = x, debug.Stack()
+					}
+					mu.Unlock()
+					atomic.StoreInt64(&next, int64(n)) // stop handing out work
+				}
+			}()
 			for {
 				i := int(atomic.AddInt64(&next, 1))
 				if i >= n {
@@ -186,6 +201,9 @@ func ParFor(n int, f func(i int)) {
 		}()
 	}
 	wg.Wait()
+	if first != nil {
+		panic(fmt.Sprintf("%v\n%s", first, stack))
+	}
 }
 
 // BFSResult reports an explicit-state search.
